@@ -48,7 +48,7 @@ def sLastVal (a b : String) : S := .setLoc "last_val" (.call2 "method" (.idx (.l
 /-- `last = [s[0], last_val]` -/
 def sSetLast (s : String) : S := .setLoc "last" (.list2 (.idx (.loc s) (.int 0)) (.loc "last_val"))
 
-def sCase1 : S := .seq sDel1 (.seq sPrev1 (.setLoc "last" .nan))
+def sCase1 : S := .seq sDel1 (.seq sPrev1 (.setLoc "last" .emptyList))
 def sCase2 : S := .seq sDel1 (.seq sPrev1 (.seq (sLastVal "current_in_sample_1" "prev_in_sample_2") (sSetLast "prev_in_sample_2")))
 def sCase11 : S := .seq (sLastVal "prev_in_sample_1" "current_in_sample_2") (.seq (sSetLast "current_in_sample_2") sAdv2)
 def sFull (osrc la lb ls : String) (adv : S) : S :=
@@ -284,7 +284,7 @@ variable {β : Type}
 def nextSt (f : α → α → β) (ne : β → β → Bool) (p1 c1 p2 c2 : Tm) (v1 w1 v2 w2 : α) (r1 r2 : ASig α)
     (out : ASig β) (last : Last β) : Dec → Option (ASig α × ASig α × ASig β × Last β)
   | .err => none
-  | .k1 => some ((c1, w1) :: r1, (p2, v2) :: (c2, w2) :: r2, out, .nan)
+  | .k1 => some ((c1, w1) :: r1, (p2, v2) :: (c2, w2) :: r2, out, .nil)
   | .k2 => some ((c1, w1) :: r1, (p2, v2) :: (c2, w2) :: r2, out, .item p2 (f w1 v2))
   | .k11 => some ((p1, v1) :: (c1, w1) :: r1, (c2, w2) :: r2, out, .item c2 (f v1 w2))
   | .k13 => some ((p1, v1) :: (c1, w1) :: r1, (c2, w2) :: r2, out, last)
@@ -666,10 +666,10 @@ theorem body_spec {env : Env α} {p1 c1 p2 c2 : Tm} {v1 w1 v2 w2 : α} {r1 r2 : 
   | k1 =>
       simp only [nextSt, chainK]
       obtain ⟨e1, hx1, hl1, _⟩ := adv1_pre encP m call fuel h2 hc1
-      refine ⟨setLoc "last" .nan e1, (c1, w1), (p2, v2), ?_, hl1.set_last encP m .nan, rfl, rfl⟩
+      refine ⟨setLoc "last" (encLast encP (.nil : Last β)) e1, (c1, w1), (p2, v2), ?_, hl1.set_last encP m .nil, rfl, rfl⟩
       unfold sCase1
       rw [hx1]
-      exact exec_setLoc call fuel (by simp [evalE])
+      exact exec_setLoc call fuel (by simp [evalE, encLast])
   | k2 =>
       simp only [nextSt, chainK]
       obtain ⟨e1, hx1, hl1, hs1⟩ := adv1_pre encP m call fuel h2 hc1
